@@ -10,7 +10,7 @@ LEVEL_TEXT = ("Every generated run's stream is checked by an automaton: RUNNING/
 LEVEL_NOTE = "Trusted: the stream consumer (real handler.stream_events), virtual clock. 'Unless the run ends first' = the handler finished."
 DESIGN_REF = "§5 C35"
 RULE = "case = generated program (fan / wait / hitl_ret / outcomes) + schedule; distinct = tick-order signature hash; non-trivial = a PREPARING was seen or an InputRequiredEvent returned"
-REQUIRED_REACH = ["ssc_event", "preparing_seen", "input_required_returned", "family_fan", "family_hitl_ret", "family_collect", "family_syncfan"]
+REQUIRED_REACH = ["ssc_event", "preparing_seen", "input_required_returned", "family_fan", "family_hitl_ret", "family_collect", "family_syncfan", "verbose_workflow"]
 ASSUMPTIONS = []
 FAMILIES = [("fan", 3), ("wait", 1), ("hitl_ret", 2), ("outcomes", 1), ("collect", 2), ("syncfan", 1)]
 
@@ -30,7 +30,19 @@ def _nontrivial(tr):
 
 
 def run_shard(shard):
-    return engine_check.run_shard(shard, FAMILIES, _oracles(), _nontrivial)
+    import random
+
+    from vf.common import Acc
+
+    acc = Acc()
+    for i in range(shard["n"]):
+        case = engine_check.gen_case(shard["seed"] + i, FAMILIES)
+        if random.Random(case["seed"] ^ 0xC35).random() < 0.2:
+            # Workflow(verbose=True): a logging decorator sits between the control loop and the published stream
+            case["spec"]["verbose"] = True
+            acc.hit("verbose_workflow")
+        engine_check.run_one(case, acc, _oracles(), _nontrivial)
+    return acc.to_dict()
 
 
 def replay(rp):
